@@ -59,6 +59,10 @@ CLAIMED = {
         text='Proof over the abstract length view of the retainer list: Router.Send retains exactly on success, never more than RetainCount (trimming from the front only), and sends exactly one RoutingInd carrying the message; resendLost removes min(k, retained) elements from the back and spawns exactly one sendMultiple with that many messages; sendMultiple sends them in slice order; serve hands each RoutingInd payload to pushInbound exactly once and closes inbound when the socket channel closes; checkRouterConfig yields RetainCount >= 1.',
         note="Sequential model of the environment (DESIGN §2.4.5): knxnet.Socket, channels, goroutines, mutexes, timers and container/list are environment operations with ghost logs (send log per socket, sent/received count and last value per channel, held flag per mutex, ghost clock); select may take any case, receives may yield any well-typed value or 'closed'; loop-free goroutines are run to completion in place (assumed: eventually scheduled), long-running workers are logged and verified separately. Holds for every sequence of environment choices, NOT for interleavings with other goroutines touching the same state (that is C10), nor for liveness/wall-clock claims. List CONTENTS and order inside the retainer are not modelled (container/list is an assumed contract with a length view), so 'exactly the last k messages in their original order' is proved only up to counts and the back/front end used.",
         ref="§3 C14"),
+    "C18": dict(
+        text="Proof over the real code of cemi/address.go: the four component constructors place each component in its documented bit field and ignore bits outside its width (bit-vector post-conditions and equivalence lemmas, all 2^24 / 2^24 arguments at once); GroupAddr.String and IndividualAddr.String emit three decimal components holding exactly the 5/3/8 resp. 4/4/8 bit fields; NewGroupAddrString / NewIndividualAddrString return nil error IF AND ONLY IF the text has one, two or three separator-delimited components that strconv.Atoi accepts and whose values lie in the documented ranges and are not all zero, return exactly the composed address then and 0 otherwise (loop invariant over the component list, any number of components); lemma: every non-zero address survives String then parse.",
+        note="The text layer is an ASSUMED contract, not code in /repo: strings.Split, strconv.Atoi and fmt.Sprintf(\"%d<c>%d<c>%d\") are modelled by uninterpreted functions (components of a string, Atoi accepted/value) with the one axiom that Sprintf's output splits into numerals Atoi maps back to the arguments. Which texts Atoi accepts as a numeral (e.g. a leading '+') is therefore outside the proof. A bounded stand-in executes the real composition over the finite domains the property names (all 65,535 addresses of both kinds, widened component ranges, malformed texts, all constructor arguments).",
+        ref="§3 C18"),
     "C20": dict(
         text="Proof for DescribeTunnel and DiscoverOnInterface: at most one request is sent, the socket obtained is closed on every return path after a successful dial, the timeout channel is created once with the caller's timeout and is an alternative of every select, and (Discover) each iteration appends exactly the received *SearchRes, in arrival order, and nothing else.",
         note="Sequential model of the environment (DESIGN §2.4.5): knxnet.Socket, channels, goroutines, mutexes, timers and container/list are environment operations with ghost logs (send log per socket, sent/received count and last value per channel, held flag per mutex, ghost clock); select may take any case, receives may yield any well-typed value or 'closed'; loop-free goroutines are run to completion in place (assumed: eventually scheduled), long-running workers are logged and verified separately. Holds for every sequence of environment choices, NOT for interleavings with other goroutines touching the same state (that is C10), nor for liveness/wall-clock claims. The wall-clock bound itself reduces to the assumed contract of time.After/select. Dial/Listen and NewDescriptionReq/NewSearchReq are assumed (trusted) contracts.",
